@@ -39,8 +39,8 @@ ASSUMPTIONS = [
     "int()/float() of a stat token are modelled for the decimal tokens the kernel writes",
 ]
 MANIFEST = {
-    "level_text": "Machine-checked Lean 4 proofs over a transcription of ppid_map()/children()/parent()/parents()/_raise_if_pid_reused(): for EVERY ppid map and every start-time assignment (forests, self-loops, cycles, unlisted parents, ties) children() is exactly the set of listed processes whose parent link is the caller and that are not older than it, children(recursive=True) is exactly the inductive reachability closure minus the caller, each PID once (C05_children_exact, C05_children_rec_exact, C05_nodup, C05_not_self, C05_no_older), the walk terminates on any graph (C05_terminates: a proved fuel bound; without the `seen` guard divergence is proved), parent() is the process named by ppid() unless younger (C05_parent_spec), parents() is the parent chain and terminates (C05_parents_chain, C05_parents_terminates), a caller whose incarnation is gone or whose PID was recycled gets NoSuchProcess whatever the object saw before (C05_dead_caller_NSP, C05_recycled_caller_NSP at full strength), and both stat readers recover ppid/starttime for every comm byte string (C05_stat_roundtrip). Richer world (Model/C05Dyn): any set of other processes with an unreadable or vanished stat file is left out and never fails children() (C05_unreadable_left_out[_rec], C05_unreadable_never_returned; false without the hypothesis that readable processes stay readable during the walk: C05_unreadable_mid_walk_counterexample), zombies are transparent for all calls (C05_zombie_transparent[_parents]), parents() over ANY sequence of worlds — ancestors exiting, reaped, recycled, re-parented between two parent() calls — is the step-wise chain (C05_parents_dyn_spec), each element the parent of the previous one when looked up, never younger, no PID twice (C05_parents_dyn_links), terminating within |PIDs|+2 iterations (C05_parents_dyn_terminates), ending with NoSuchProcess at an element that is no longer itself (C05_parent_dyn_dead_NSP); inside oneshot() a cached ppid is answered without identity check (C05_oneshot_parent_cached), while a stat memo filled by another method still goes through the identity check (C05_oneshot_statmemo_parent). Round 3: the rich model of parent()/parents() is proved equal to the plain one on constant readable tables for every configuration (C05_static_parent_refines, C05_static_parents_refines; formerly a run-time flag); a recycled caller gets NoSuchProcess whatever is unreadable — the new owner included (C05_dead_caller_NSP_X, C05_recycled_caller_NSP_X[_parent], C05_parents_dyn_dead_NSP); with NO hypothesis on the look-up world a value returned by children() is exact and the only other outcome is AccessDenied(c) for a process c that turned unreadable (C05_children_value_exact, C05_children_outcomes); a value returned by parent() is the right one in any worlds (C05_parent_dyn_sound). The model is tied to the code by translator facts (the three `<=`, the seen guard, the own-PID drop, the parents() cycle stop, the identity pre-checks incl. the `_gone` test, the lowest-PID stop, rfind/index facts) feeding the proof obligations cfg_good/scfg_good, and by a differential run of the real methods over fake procfs tables, random and exhaustive.",
-    "level_note": "Trusted: Lean kernel + {propext, Classical.choice, Quot.sound}; the translator; the correspondence harness; float create_time modelled by integer ticks (monotonicity checked at run time); atomic file reads; Process(pid)+create_time() as one look-up. The specification is silent (model-only comparison) about WHICH exception an unreadable stat file on the path of parent()/parents() produces, about a caller whose own stat file is unreadable while it is still the same incarnation (a recycled unreadable caller must get NoSuchProcess), and on a oneshot ppid() cache hit; for processes turning unreadable during the walk of children() the specification is the exact value or AccessDenied(that process).",
+    "level_text": "Machine-checked Lean 4 proofs over a transcription of ppid_map()/children()/parent()/parents()/_raise_if_pid_reused(): for EVERY ppid map and every start-time assignment (forests, self-loops, cycles, unlisted parents, ties) children() is exactly the set of listed processes whose parent link is the caller and that are not older than it, children(recursive=True) is exactly the inductive reachability closure minus the caller, each PID once (C05_children_exact, C05_children_rec_exact, C05_nodup, C05_not_self, C05_no_older), the walk terminates on any graph (C05_terminates: a proved fuel bound; without the `seen` guard divergence is proved), parent()/parents() equal psutil's reading 'named by ppid() unless younger, and the lowest listed PID has no parent' (C05_parent_spec, C05_parents_chain, C05_parents_terminates: a CHARACTERISATION of the code) and equal the LITERAL statement (parentLit/ChainLit: no lowest-PID rule) exactly off the region where the lowest listed PID shows a parent (C05_parent_literal, C05_parents_literal; counterexample C05_lowest_pid_parent_counterexample = known finding C05-lowest-pid-parent), a caller whose incarnation is gone or whose PID was recycled gets NoSuchProcess whatever the object saw before — children() at full strength (C05_dead_caller_NSP, C05_recycled_caller_NSP), parent()/parents() for every caller except a dead one that is the lowest listed PID, where the code as found answers None/[] (C05_recycled_lowest_pid_counterexample, C05_recycled_lowest_pid_as_found = known finding C05-recycled-lowest-pid, PENDING(fixes/C05-parent-root-recycled.diff); full strength proved for the repaired configuration: C05_recycled_caller_NSP_parent_repaired), and both stat readers recover ppid/starttime for every comm byte string (C05_stat_roundtrip). Richer world (Model/C05Dyn): any set of other processes with an unreadable or vanished stat file is left out and never fails children() (C05_unreadable_left_out[_rec], C05_unreadable_never_returned; false without the hypothesis that readable processes stay readable during the walk: C05_unreadable_mid_walk_counterexample), zombies are processes like any other (a modelling decision recorded as C05_model_state_letter_unread[_parents]; the code's zombie paths are tied by the correspondence only), parents() over ANY sequence of worlds — ancestors exiting, reaped, recycled, re-parented between two parent() calls — is the step-wise chain (C05_parents_dyn_spec), each element the parent of the previous one when looked up, never younger, no PID twice (C05_parents_dyn_links), terminating within |PIDs|+2 iterations (C05_parents_dyn_terminates), ending with NoSuchProcess at an element that is no longer itself (C05_parent_dyn_dead_NSP); inside oneshot() a cached ppid is answered without identity check (model lemma C05_model_oneshot_cache_hit), while a stat memo filled by another method still goes through the identity check (C05_oneshot_statmemo_parent). Round 3: the rich model of parent()/parents() is proved equal to the plain one on constant readable tables for every configuration (C05_static_parent_refines, C05_static_parents_refines; formerly a run-time flag); a recycled caller gets NoSuchProcess whatever is unreadable — the new owner included (C05_dead_caller_NSP_X, C05_recycled_caller_NSP_X[_parent], C05_parents_dyn_dead_NSP); with NO hypothesis on the look-up world a value returned by children() is exact and the only other outcome is AccessDenied(c) for a process c that turned unreadable (C05_children_value_exact, C05_children_outcomes); a value returned by parent() is the right one in any worlds (C05_parent_dyn_sound). Audit round: completeness of parents() while the table changes against the literal chain (C05_parent_dyn_literal, C05_parents_dyn_literal); SEQUENCES of calls on one object (Model/C05Seq): while the incarnation lives no call changes the object, so every single-call theorem holds for the n-th call (C05_seq_object_unchanged, C05_seq_children_exact), flags are only set by a call that saw it dead (C05_seq_flags_sound), a dead object stays dead (C05_seq_dead_stays_dead); the ORDER of children() is unspecified (a set) and characterised (C05_children_order_flat, C05_children_order_docstring: the docstring's order is not the code's). The model is tied to the code by translator facts (the three `<=`, the seen guard, the own-PID drop, the parents() cycle stop, the identity pre-checks incl. the `_gone` test, the lowest-PID stop, rfind/index facts, the except tuple of ppid_map(), POSIX ppid() uncached, create_time() cached; 22 facts, extractors total and independent) feeding the proof obligations cfg_good/scfg_good/xcfg_good/ocfg_good, and by a differential run of the real methods over fake procfs tables, random and exhaustive, incl. histories of several calls on one object and the unsorted order of children().",
+    "level_note": "Trusted: Lean kernel + {propext, Classical.choice, Quot.sound}; the translator; the correspondence harness; float create_time modelled by integer ticks (monotonicity checked at run time); atomic file reads; Process(pid)+create_time() as one look-up. The specification is silent (model-only comparison) about WHICH exception an unreadable stat file on the path of parent()/parents() produces, about a caller whose own stat file is unreadable while it is still the same incarnation (a recycled unreadable caller must get NoSuchProcess), and on a oneshot ppid() cache hit; for processes turning unreadable during the walk of children() the specification is the exact value or AccessDenied(that process). The specification of parent()/parents() is the LITERAL statement; inside the regions of the two known findings (lowest listed PID shows a parent; dead caller that is the lowest listed PID) the check accepts exactly psutil's reading and still requires equality with the Lean model. The order of children()'s list is compared with the model only (unspecified by the statement). The zombie paths of the code (wrap_exceptions/_raise_if_zombie) and @memoize_when_activated are not in the model (correspondence only).",
     "technique": "Lean 4 proof (DFS invariant + fuel bound, induction over the reachability relation, case analysis) + translator-fed proof obligations + differential correspondence on fake procfs with exhaustive small tables",
     "design_ref": "DESIGN.md §5 C05",
 }
@@ -386,7 +386,9 @@ class Impl:
         if case.get("pids_call") == "t0":
             self._pids()
         extra["lowest"] = ps._LOWEST_PID
-        me_ticks = self.to_ticks(p._create_time) if p._create_time is not None else None
+        # the caller's start time: what the table it was built on says (not the object's cache, which a changed
+        # create_time() might no longer fill)
+        me_ticks = next((r[2] for r in case["mk"] if r[0] == case["pid"]), None)
         call = case["call"]
         n = max(len(case["t0"]), len(case.get("t1") or []))
         self.counter[0] = 0
@@ -747,7 +749,9 @@ def history_variants(rng, rows, pid, family):
     elif family == "vanish_during":
         evs = []
         for _ in range(rng.randrange(1, 4)):
-            x = rng.choice(others) if others else me
+            # one time in four the event hits the CALLER's own row while its children are walked (it exits / its PID is
+            # reused): the caller's start time was read once (fact ctimeCached), so nothing may change
+            x = rng.choice(others) if others and rng.random() < 0.75 else me
             k = rng.randrange(1, len(rows) + 1)
             if rng.random() < 0.7:
                 evs.append([k, x[0], None])
